@@ -345,6 +345,11 @@ class PrintrunWriter(BaseWriter):
             self._logger.debug("Device message: %s", message)
 
             if lower_message.startswith(SUCCESS_PREFIXES):
+                # Some replies carry a report on the acknowledgment
+                # line itself (e.g. Marlin's "ok T:21.3 /0.0 B:20.1").
+                # Read it before waking up the writer, so the values
+                # are available as soon as `write()` returns.
+                self._parse_message(message)
                 self._ack_event.set()
                 return
             elif lower_message.startswith(ERROR_PREFIXES):
